@@ -3,6 +3,7 @@ from __future__ import annotations
 
 import ast
 
+from ..cfg import CFG
 from ..engine import AnalysisError, MechanismMissing, PropertySpec, norm
 from ..pyutil import call_name, calls, const_str, is_name, literal, walk_local
 from ._api import API, MODEL, SIG, db_accesses, guards_of, key_values, signature_of, api_fn
@@ -259,6 +260,7 @@ def r19_6(ctx, rep):
         raise MechanismMissing(R, "load_model no longer builds the two metadata tables from variable_metadata_function")
     # counters of loops that enumerate the variables of one category
     n = 0
+    offsets_done = set()
     for sub in walk_local(ld):
         if not (isinstance(sub, ast.Subscript) and isinstance(sub.value, ast.Subscript) and (isinstance(sub.value.value, ast.Name) and sub.value.value.id in tables)
                 and isinstance(sub.slice, ast.Tuple) and len(sub.slice.elts) == 2):
@@ -299,6 +301,37 @@ def r19_6(ctx, rep):
             ok = bool(used & counters) or bool(used & sized)
             why = "row index `%s` is not derived from the per-variable loop" % norm(row)
         rep.ob(R, API + ":load_model", "row index of %s[...] #%d" % (sub.value.value.id, n), ok, why)
+        # the element offset: a local reset to 0 outside the per-variable loop and advanced inside it — by the element count, on every
+        # iteration (a variable that needs nothing from the matrices still owns its rows)
+        var_loops = [lp for lp in loops if isinstance(lp.iter, ast.Call) and call_name(lp.iter) == "enumerate"]
+        if per_element and var_loops and id(var_loops[-1]) not in offsets_done:
+            lp = var_loops[-1]
+            offsets_done.add(id(lp))
+            inside = {id(x) for x in ast.walk(lp)}
+            zeroed = {st.targets[0].id for st in walk_local(ld) if isinstance(st, ast.Assign) and id(st) not in inside and isinstance(st.targets[0], ast.Name)
+                      and isinstance(st.value, ast.Constant) and st.value.value == 0}
+            offs = {v for v in zeroed if v in sized}
+            if not offs:
+                if ok:
+                    raise MechanismMissing(R, "no element offset (a local reset to 0 before the per-variable loop and advanced in it) found")
+                continue  # the row index is the variable's position: already reported above
+            cfg = CFG(ast.Module(body=[lp], type_ignores=[]), R)
+            it = [x for x in cfg.nodes if x.kind == "iter" and x.ast is lp][0]
+            for v in sorted(offs):
+                ups = [x for x in cfg.stmts() if isinstance(x.ast, (ast.Assign, ast.AugAssign)) and any(
+                    isinstance(t, ast.Name) and t.id == v for t in (x.ast.targets if isinstance(x.ast, ast.Assign) else [x.ast.target]))]
+                unsized = [x for x in ups if not (any(k in norm(x.ast.value) for k in (".numel()", ".size1()", ".size()", ".shape")) or (_names(x.ast.value) & (sized - {v})))]
+                rep.ob(R, API + ":load_model", "offset `%s` advances by the element count only" % v, bool(ups) and not unsized,
+                       "`%s` moves the row offset by something else than the variable's element count: after an unexpanded vector variable "
+                       "every later variable reads another variable's rows" % (norm(unsized[0].ast) if unsized else "no update"))
+                w = None
+                for s_ in cfg.succ[it.id]:
+                    if s_ == cfg.exit or s_ in {u.id for u in ups}:
+                        continue
+                    w = w or cfg.path(s_, it.id, avoid={u.id for u in ups})
+                rep.ob(R, API + ":load_model", "offset `%s` advances on every iteration" % v, w is None,
+                       "an iteration can end without advancing the row offset: the next variable then reads the skipped variable's rows",
+                       path=cfg.describe(w) if w else "")
     if n < 2:
         raise MechanismMissing(R, "load_model no longer reads metadata[key][row, column]")
 
@@ -350,6 +383,45 @@ def r19_8(ctx, rep):
     from .c20 import cache_validity
 
     cache_validity(ctx, rep, "R19.8")
+
+
+def codegen_always_builds(ctx, rep, R):
+    """every return of _codegen_model passes: add(<the function passed in>), generate, compile, link — the library that save_model
+    stores is built from the function of *this* model, never an older file that happens to carry the same name"""
+    fn = api_fn(ctx, "_codegen_model", R)
+    site = API + ":_codegen_model"
+    cfg = CFG(fn, R)
+    params = [a.arg for a in fn.args.args]
+    rets = [x for x in cfg.stmts() if isinstance(x.ast, ast.Return)]
+    if not rets:
+        raise MechanismMissing(R, "_codegen_model has no return")
+    stages = {
+        "the function passed in is added to the code generator": lambda c: isinstance(c.func, ast.Attribute) and c.func.attr == "add" and c.args and norm(c.args[0]) in params,
+        "C code is generated": lambda c: isinstance(c.func, ast.Attribute) and c.func.attr == "generate",
+        "the C code is compiled": lambda c: isinstance(c.func, ast.Attribute) and c.func.attr == "compile",
+        "the library is linked": lambda c: isinstance(c.func, ast.Attribute) and c.func.attr in ("link", "link_shared_object", "link_shared_lib"),
+    }
+    for what, pred in stages.items():
+        nodes = {x.id for x in cfg.nodes if x.kind in ("stmt", "with") and x.ast is not None and not isinstance(x.ast, (ast.FunctionDef, ast.Try)) and any(pred(c) for c in calls(x.ast))}
+        if not nodes:
+            raise MechanismMissing(R, "_codegen_model: no statement where " + what)
+        bad = None
+        for r in rets:
+            bad = bad or cfg.must_pass(cfg.entry, r.id, nodes)
+        rep.ob(R, site, "every return passes: " + what, bad is None,
+               "_codegen_model can return a library path without this step: the file on disk (left by an earlier save of another model, "
+               "other options, or an older version of the same model) is stored in the cache entry as if it were this model's function",
+               path=cfg.describe(bad) if bad else "")
+
+
+@SPEC.rule(
+    "R19.9",
+    "what save_model stores under codegen is built from the model being saved: every return of _codegen_model passes the "
+    "add(f) of the function it was given, generate(), compile() and link() — no `library already there / newer than the sources` "
+    "shortcut returns a file compiled from another function",
+)
+def r19_9(ctx, rep):
+    codegen_always_builds(ctx, rep, "R19.9")
 
 
 # -- seeded variants ---------------------------------------------------------
@@ -424,3 +496,15 @@ def _m_nan(mod):
         return False
 
     return mod if replace_in_func(mod, "load_model", edit) else None
+
+
+@SPEC.mutant("existing library reused instead of compiled", API, "R19.9", "every return passes")
+def _m_reuse_lib(mod):
+    def edit(fn):
+        for i, st in enumerate(fn.body):
+            if "CodeGenerator" in norm(st):
+                fn.body.insert(i, ast.parse("if os.path.exists(os.path.join(model_folder, library_name + '.so')):\n    return os.path.join(model_folder, library_name + '.so')").body[0])
+                return True
+        return False
+
+    return mod if replace_in_func(mod, "_codegen_model", edit) else None
